@@ -7,6 +7,9 @@ import Heathcliff.Proofs.GenGalois
 import Heathcliff.Proofs.GenGalois2
 import Heathcliff.Proofs.GenGalois3
 import Heathcliff.Proofs.GenWord6
+import Heathcliff.Proofs.GenGalois4
+import Heathcliff.Proofs.GenGaloisPlan
+import Heathcliff.Proofs.GenGalois5
 
 /- Property theorems only (statements verbatim; proofs are the helper lemmas of Heathcliff/Proofs). -/
 namespace HC.C04
@@ -363,6 +366,114 @@ theorem applyChain_error : type_of% @HC.applyChain_error := @HC.applyChain_error
 /-- R4 (CKKS): `rotate_vector(step)` = σ_{3^s}, conjugation = σ_{2N−1}, on the exact phase modulo every level modulus -/
 theorem ckks_rotate_phase : type_of% @HC.ckks_rotate_phase := @HC.ckks_rotate_phase
 
+
+/-! ### translator tie, round 7 (worker V; Proofs/GenGalois4.lean): `GaloisTool::apply` with a DIRTY result buffer, composed down to X ↦ X^g.
+     The callers (`apply_p` from `apply_galois_inplace`) pass a scratch buffer that still holds the previous polynomial.  For ODD g the index map
+     i ↦ i·g mod N is a permutation, so every word is overwritten and the generated function does not depend on the initial contents
+     (`hodd` is necessary: see the `g = 2` example in Proofs/GenGalois4.lean, where slots 1 and 3 keep the dirty words). -/
+theorem gen_galois_apply_dirty (a : List Nat) (g : Nat) (m : Modulus) (k : Nat) (hk : k < 64) (ha : 2^k ≤ a.length)
+    (hg : 2^k * g < 2^64) (hodd : g % 2 = 1) (res : List Nat) (hres : res.length = 2^k) :
+    GenG.galois_apply a g m res (2^k) k = (galoisApply k a.toArray g m >>= fun r => pure r.toList) :=
+  HC.gz_galois_apply_dirty a g m k hk ha hg hodd res hres
+/-- source → index / sign rule: the generated `apply` on canonical input succeeds and writes a_i to (i·g mod N), negated iff ⌊i·g/N⌋ is odd -/
+theorem gen_galois_apply_spec (a : List Nat) (g : Nat) (m : Modulus) (k : Nat) (hm : m.WF) (hk : k < 64)
+    (ha : a.length = 2^k) (hg : 2^k * g < 2^64) (hodd : g % 2 = 1) (hlt : ∀ i, i < 2^k → a.getD i 0 < m.value)
+    (res : List Nat) (hres : res.length = 2^k) :
+    ∃ r : List Nat, GenG.galois_apply a g m res (2^k) k = .ok r ∧ r.length = 2^k ∧ ∀ i, i < 2^k →
+      r.getD ((i * g) % 2^k) 0 = (if ((i * g) / 2^k) % 2 = 1 then (m.value - a.getD i 0) % m.value else a.getD i 0) :=
+  HC.gz_galois_apply_spec a g m k hm hk ha hg hodd hlt res hres
+/-- source → mathematics: the generated `apply` IS the substitution X ↦ X^g modulo (X^N + 1, q): for every x ∈ ℤ/q with x^N = −1,
+    Σ_j r_j x^j = Σ_i a_i (x^g)^i -/
+theorem gen_galois_apply_subst (a : List Nat) (g : Nat) (m : Modulus) (k : Nat) (hm : m.WF) (hk : k < 64)
+    (ha : a.length = 2^k) (hg : 2^k * g < 2^64) (hodd : g % 2 = 1) (hlt : ∀ i, i < 2^k → a.getD i 0 < m.value)
+    (res : List Nat) (hres : res.length = 2^k) (x : ZMod m.value) (hx : x ^ (2^k) = -1) :
+    ∃ r : List Nat, GenG.galois_apply a g m res (2^k) k = .ok r ∧ r.length = 2^k ∧
+      ∑ j ∈ range (2^k), (r.getD j 0 : ZMod m.value) * x ^ j =
+        ∑ i ∈ range (2^k), (a.getD i 0 : ZMod m.value) * (x ^ g) ^ i :=
+  HC.gz_galois_apply_subst a g m k hm hk ha hg hodd hlt res hres x hx
+/-- non-vacuity: N = 4, q = 17, g = 3, dirty buffer [9,9,9,9] -/
+example : GenG.galois_apply [1, 2, 3, 4] 3 ⟨17, (2^128 / 17) % B64, (2^128 / 17) / B64, 2^128 % 17, bitCount 17⟩
+    [9, 9, 9, 9] (2^2) 2 = .ok [1, 4, 14, 2] := by decide
+
+/-! ### translator tie, round 7 (worker V; "plan mode" tools/rs2lean_gal.py, Gen/GaloisPlanFns.lean, Proofs/GenGaloisPlan.lean): the rotation layer of
+     src/evaluator.rs.  `GenGal.rotate_internal_level steps n keys valid batching keys_ok` is ONE level of `Evaluator::rotate_internal` (result: the element
+     applied directly, the NAF terms it recurses on, in order); `gal_rotateGen` closes it under the recursion.  `k ≤ 31`: every accepted step is then
+     below 2^30, where `steps as i32` does not truncate and the `naf` tie holds. -/
+theorem gen_rotate_internal_level_eq (k : Nat) (hk : k ≤ 31) (keys : List Nat) (steps : Int) :
+    GenGal.rotate_internal_level steps (2^k) keys true true true = rotateLevel k keys steps := HC.gal_rotate_level_eq k hk keys steps
+/-- the source's plan = the model's plan: direct key if present, else NAF terms in order, terms equal to ±N/2 skipped, recursively -/
+theorem gen_rotate_internal_eq (k : Nat) (hk : k ≤ 31) (keys : List Nat) (fuel : Nat) (steps : Int) :
+    gal_rotateGen k keys fuel steps = rotatePlan k keys fuel steps := HC.gal_rotateGen_eq k hk keys fuel steps
+theorem gen_rotate_internal_refuses (steps : Int) (n : Nat) (keys : List Nat) (valid batching keysOk : Bool)
+    (h : valid = false ∨ batching = false ∨ keysOk = false) :
+    GenGal.rotate_internal_level steps n keys valid batching keysOk = .error .refused :=
+  HC.gal_rotate_level_refuses steps n keys valid batching keysOk h
+/-- the GENERATED plan uses only available keys (odd elements < 2N) and multiplies to 3^(steps mod N/2): it rotates by `steps` -/
+theorem gen_rotate_internal_ok : type_of% @HC.gal_rotateGen_ok := @HC.gal_rotateGen_ok
+/-- … and executing it with the model's `applyGalois` rotates the decrypted slot rows by `steps` (BFV, margins of `rotatePlan_rotate_bfv`) -/
+theorem gen_rotate_internal_rotates_bfv : type_of% @HC.gal_rotateGen_bfv := @HC.gal_rotateGen_bfv
+/-- non-vacuity / witness of the skipped term: N = 32, default keys, steps = 11 = −1 − 4 + 16: the term 16 = N/2 is skipped
+    (a rotation of a row by N/2 is the identity; `get_elt_from_step(16)` would panic), plan = [3^-1, 3^-4] = [43, 49] -/
+example : GenGal.rotate_internal_level 11 32 [63, 3, 43, 9, 57, 17, 49, 33, 33] true true true = .ok ([], [-1, -4]) := by decide
+example : gal_rotateGen 5 [63, 3, 43, 9, 57, 17, 49, 33, 33] 2 11 = .ok [43, 49] := by decide
+/-- `conjugate_internal` applies exactly the element 2N − 1 -/
+theorem gen_conjugate_internal_eq (k : Nat) (hk : k ≤ 61) : GenGal.conjugate_internal (2^k) true true = .ok [2 * 2^k - 1] := HC.gal_conjugate_eq k hk
+/-- `apply_galois_inplace`: refusals (no key for g; g even or > 2N; size > 2) and the step plan
+    [apply c0 → temp, c0 := temp, apply c1 → temp, c1 := 0, switch key with target temp and key index (g − 1)/2], kernels chosen by the representation -/
+theorem gen_apply_galois_plan_eq (g n k size : Nat) (ntt has : Bool) (hn : n * 2 < 2^64) (hnk : n * k < 2^64) :
+    GenGal.apply_galois_inplace_plan g n k size ntt true true true has =
+      if has = false then .error .refused
+      else if g % 2 = 0 ∨ g > 2 * n then .error .refused
+      else if size > 2 then .error .refused
+      else .ok (galoisPlan ntt g) := HC.gal_apply_plan_eq g n k size ntt has hn hnk
+/-- running that plan with the model's kernels and `switchKey` IS the model's `applyGalois` (size-2 ciphertext) -/
+theorem gen_apply_galois_plan_runs : type_of% @HC.gal_runPlan_applyGalois := @HC.gal_runPlan_applyGalois
+theorem gen_rotate_rows_gate (s : Scheme) :
+    GenGal.rotate_rows_inplace s = if s = .bfv ∨ s = .bgv then .ok [1] else .error .refused := HC.gal_rotate_rows_gate s
+theorem gen_rotate_columns_gate (s : Scheme) :
+    GenGal.rotate_columns_inplace s = if s = .bfv ∨ s = .bgv then .ok [2] else .error .refused := HC.gal_rotate_columns_gate s
+theorem gen_rotate_vector_gate (s : Scheme) :
+    GenGal.rotate_vector_inplace s = if s = .ckks then .ok [1] else .error .refused := HC.gal_rotate_vector_gate s
+theorem gen_complex_conjugate_gate (s : Scheme) :
+    GenGal.complex_conjugate_inplace s = if s = .ckks then .ok [2] else .error .refused := HC.gal_complex_conjugate_gate s
+
+/-! `switch_key_inplace_internal` (fragments, see tools/rs2lean_gal.py): the prologue's refusals = the gate of the model's `switchKey`; the key-level
+    modulus / NTT-table index used for RNS index i of the accumulation loop (i = 0 .. dsz, `rns_modulus_size = dsz + 1`) = `keyIndex` of `ksAccumulate`:
+    the special prime is the LAST key-level modulus (`ksz − 1`), not the modulus after the level's own ones (`dsz`) — they differ below the first level. -/
+theorem gen_switch_key_prologue_eq (scheme : Scheme) (ntt : Bool) (index nkeys : Nat) :
+    GenGal.switch_key_prologue scheme ntt true true true index nkeys =
+      if index ≥ nkeys then .error .refused
+      else (match scheme with
+            | .bfv => if ntt then Except.error Err.refused else pure ()
+            | _ => if !ntt then Except.error Err.refused else pure ()) >>= fun _ => .ok [] := HC.gal_switch_prologue_eq scheme ntt index nkeys
+theorem gen_switch_key_prologue_refuses (scheme : Scheme) (ntt valid usingKs keysOk : Bool) (index nkeys : Nat)
+    (h : valid = false ∨ usingKs = false ∨ keysOk = false) :
+    GenGal.switch_key_prologue scheme ntt valid usingKs keysOk index nkeys = .error .refused :=
+  HC.gal_switch_prologue_refuses scheme ntt valid usingKs keysOk index nkeys h
+theorem gen_switch_key_indices_eq (dsz ksz : Nat) (hd : dsz + 1 < 2^64) (hk : 1 ≤ ksz) :
+    GenGal.switch_key_indices dsz ksz = .ok ((List.range (dsz + 1)).map (fun i => if i = dsz then ksz - 1 else i)) :=
+  HC.gal_switch_indices_eq dsz ksz hd hk
+/-- non-vacuity: a ciphertext two levels below a 4-prime key level (dsz = 1, ksz = 4): indices [0, 3] -/
+example : GenGal.switch_key_indices 1 4 = .ok [0, 3] := by decide
+
+/-! `GaloisTool::apply_ntt`, the USE of the table (fragment after `let table = &(*reader)[index];`: length assertion + `result[i] = operand[table[i]]`; Proofs/GenGalois5.lean):
+    with the model's table it is `galoisApplyNtt` whatever the result buffer held before; composed with the GENERATED `generate_table_ntt` it is source → model.
+    `g % 2 = 1`: the table entries are < N only for odd g (`galoisTable_spec`); `2^k ≤ operand.len()`: the reads `operand[t]` are bounds-checked. -/
+theorem gen_apply_ntt_permute_eq (k g : Nat) (hg : g % 2 = 1) (a res : List Nat) (ha : 2^k ≤ a.length) (hres : res.length = 2^k) :
+    GenGal.galois_apply_ntt_permute a (galoisTableNtt k g).toList res (2^k) = .ok (galoisApplyNtt k a.toArray g).toList :=
+  HC.gp_apply_ntt_permute_eq k g hg a res ha hres
+/-- for ANY table of length n with entries in range: the gather `table.map (operand[·])` -/
+theorem gen_apply_ntt_permute_map (a0 tab res : List Nat) (n : Nat) (htab : tab.length = n) (hres : res.length = n)
+    (hrange : ∀ j, j < n → tab.getD j 0 < a0.length) :
+    GenGal.galois_apply_ntt_permute a0 tab res n = .ok (tab.map (fun t => a0.getD t 0)) := HC.gp_permute_eq_map a0 tab res n htab hres hrange
+theorem gen_apply_ntt_permute_refuses (a tab res : List Nat) (n : Nat) (h : res.length ≠ n) :
+    GenGal.galois_apply_ntt_permute a tab res n = .error .refused := HC.gp_apply_ntt_permute_refuses a tab res n h
+theorem gen_apply_ntt_eq (k g : Nat) (hk : k ≤ 31) (hg : g % 2 = 1) (hg2 : g < 2^(k+1)) (a res : List Nat)
+    (ha : 2^k ≤ a.length) (hres : res.length = 2^k) :
+    (GenG.generate_table_ntt g (2^k) k >>= fun tab => GenGal.galois_apply_ntt_permute a tab res (2^k)) =
+      .ok (galoisApplyNtt k a.toArray g).toList := HC.gp_apply_ntt_gen k g hk hg hg2 a res ha hres
+/-- non-vacuity: N = 4, g = 3 (table [2,3,0,1]), dirty result buffer -/
+example : GenGal.galois_apply_ntt_permute [10, 20, 30, 40] (galoisTableNtt 2 3).toList [9, 9, 9, 9] 4 = .ok [30, 40, 10, 20] := by decide
 
 
 end HC.C04
